@@ -175,7 +175,7 @@ c10_img!(c10_q_img_u1_be_5x3, BinaryColor, BigEndianLsb0, 5, 3, 18);
 c10_img!(c10_q_img_u16_be_3x2, Rgb565, BigEndianLsb0, 3, 2, 9);
 
 #[cfg(feature = "thorough")]
-mod thorough {
+pub mod thorough {
     use super::*;
     // exact buffers, byte-aligned rows
     c10_step!(c10_t_step_u1_le_8x2, BinaryColor, LittleEndianMsb0, false, 8, 2, 0, 8);
